@@ -141,6 +141,17 @@ VF_MAIN
    * cbmc's pointer check reports; for a rejected spec it must be unreachable */
   e = _soxr_init(0, &sh, in_ratio, &q, &r, 1., &core, 0);
   VF_ASSERT(e != 0, "an out-of-range quality spec / ratio is rejected with an error string (C09)");
+#elif VF_OP == 3
+  /* the halving loop at the head of the planning loop (cr.c: for (i = (int)(.5 * arbM), shr = 0; i >>= 1; ...)) for every finite
+   * ratio >= 1: it must terminate (unwinding assertion of that loop only: the rest of the planning is cut by small bounds and is
+   * not this obligation's subject) and its float->int conversion must be in range */
+  IN_DBL(in_ratio);
+  soxr_quality_spec_t q; soxr_runtime_spec_t r; static rate_shared_t sh; static cr_core_t core; static rate_t P;
+  memset(&q, 0, sizeof(q)); memset(&r, 0, sizeof(r));
+  q.precision = 20; q.phase_response = 50; q.passband_end = .913; q.stopband_begin = 1;
+  r.log2_min_dft_size = 10; r.log2_large_dft_size = 17; r.coef_size_kbytes = 400;
+  VF_ASSUME(in_ratio >= 1 && in_ratio <= 1e15);
+  (void)_soxr_init(&P, &sh, in_ratio, &q, &r, 1., &core, 0);
 #endif
   VF_WITNESS();
 }
